@@ -6,7 +6,7 @@
    generated request by the correspondence run (oracle c13_holds). *)
 From Coq Require Import List Arith Bool Permutation String ZArith.
 From GW Require Import Base.Res Base.GoStr Base.Json Gql.Syntax Gw.ExecLTS Gw.Points Gw.Locate
-     Proofs.ExecLTSProofs Proofs.ExecLTSConserve Proofs.CodecProofs Proofs.PointsProofs Proofs.FindProofs Proofs.RouteProofs.
+     Gw.Plan Proofs.ExecLTSProofs Proofs.ExecLTSConserve Proofs.CodecProofs Proofs.PointsProofs Proofs.FindProofs Proofs.RouteProofs Proofs.PlanProofs.
 Import ListNotations.
 Open Scope string_scope.
 Open Scope list_scope.
@@ -43,6 +43,13 @@ Proof.
   destruct (find_points_spec B HB _ _ _ _ _ Hk Hn Hl H) as [sufs (A & _ & D)]. exists sufs. auto.
 Qed.
 Print Assumptions C13_one_point_per_parent_object.
+
+(* one step serves all the fields of a location at a level: the planner's grouping of a selection
+   set never has two groups for one location (so never two steps where one would do) *)
+Theorem C13_one_group_per_location : forall prios urls sels ptype ploc gs,
+  group prios urls ptype ploc sels [] = Ok gs -> NoDup (map fst gs).
+Proof. exact group_levels_are_disjoint. Qed.
+Print Assumptions C13_one_group_per_location.
 
 (* no needless hop: with no priorities configured, a selection all of whose fields are offered by
    the location it starts at (the service answering the root field) is planned entirely there *)
